@@ -30,6 +30,8 @@ import (
 	"sort"
 	"strconv"
 	"strings"
+	"sync"
+	"sync/atomic"
 	"testing"
 	"time"
 
@@ -890,6 +892,53 @@ func (w *c08World) execOp(line string) string {
 			resp := c08Serve(w.handlers[w.cur], &req)
 			return c08Canon(resp.classOf())
 		})
+	case "conc":
+		// conc ROUNDS — 16 client goroutines at once against the handler of the current world (always in a child
+		// process: a `fatal error: concurrent map writes` kills the process and cannot be recovered)
+		if os.Getenv("VERIF_C08_CHILD") == "" {
+			return w.inChild(line)
+		}
+		rounds, _ := strconv.Atoi(f[1])
+		var bodies [][]byte
+		for _, m := range []string{"getVersion", "getSlot", "getFirstAvailableBlock", "getHealth", "getGenesisHash"} {
+			bodies = append(bodies, []byte(`{"jsonrpc":"2.0","id":1,"method":"`+m+`"}`))
+		}
+		if len(w.slots) > 0 {
+			bodies = append(bodies, []byte(fmt.Sprintf(`{"jsonrpc":"2.0","id":1,"method":"getBlockTime","params":[%d]}`, w.slots[0])))
+			bodies = append(bodies, []byte(fmt.Sprintf(`{"jsonrpc":"2.0","id":1,"method":"getBlock","params":[%d]}`, w.slots[len(w.slots)/2])))
+		}
+		if len(w.sigs) > 0 {
+			bodies = append(bodies, []byte(`{"jsonrpc":"2.0","id":1,"method":"getTransaction","params":["`+w.sigs[0].String()+`"]}`))
+		}
+		var wg sync.WaitGroup
+		var panicked atomic.Int64
+		for gi := 0; gi < 16; gi++ {
+			wg.Add(1)
+			go func(gi int) {
+				defer wg.Done()
+				for r := 0; r < rounds; r++ {
+					for bi := range bodies {
+						b := bodies[(bi+gi)%len(bodies)]
+						if c08Guard(func() string {
+							var req fasthttp.Request
+							req.Header.SetMethod("POST")
+							req.SetRequestURI("/")
+							req.Header.SetContentType("application/json")
+							req.SetBody(b)
+							c08Serve(w.handlers[w.cur], &req)
+							return "nopanic"
+						}) == "panic" {
+							panicked.Add(1)
+						}
+					}
+				}
+			}(gi)
+		}
+		wg.Wait()
+		if panicked.Load() > 0 {
+			return "panic"
+		}
+		return "nopanic"
 	case "raw":
 		wire := []byte(unhx(f[1]))
 		return c08Guard(func() string {
@@ -1957,12 +2006,17 @@ func (g *c08Gen) directedStreams() []string {
 		{"include-unknown", fmt.Sprintf("V1;F1;I%s;E.;R.", csvHex([]string{unknown}))},
 		{"include-known-optionals-absent", fmt.Sprintf("V-;F-;I%s;E.;R.", csvHex([]string{known}))},
 		{"required", fmt.Sprintf("V1;F1;I.;E.;R%s", csvHex([]string{known}))},
+		// a valid key with white space around it is not a base58 string: every filter list must refuse it up front
+		{"include-padded", fmt.Sprintf("V1;F1;I%s;E.;R.", csvHex([]string{known + "\n"}))},
+		{"exclude-padded", fmt.Sprintf("V1;F1;I.;E%s;R.", csvHex([]string{" " + known}))},
+		{"required-padded", fmt.Sprintf("V1;F1;I.;E.;R%s", csvHex([]string{"\t" + known + " "}))},
 	}
 	blkFilters := []struct{ name, f string }{
 		{"none", "-"},
 		{"include-known", csvHex([]string{known})},
 		{"include-unknown", csvHex([]string{unknown})},
 		{"include-malformed", csvHex([]string{"not-base58"})},
+		{"include-padded", csvHex([]string{known + "\n"})},
 	}
 	for _, start := range starts {
 		for _, e := range ends {
@@ -2211,6 +2265,8 @@ func TestVerifC08(t *testing.T) {
 		for i := 0; i < nBca; i++ {
 			run(g.genBca())
 		}
+		s.Count("concurrent-clients-phase")
+		run("conc 40")
 	}
 	if len(w.multis) > 3 {
 		// blocks with Rewards nodes: the commission of a reward is a string in the archive ("" / "7" / not a number)
